@@ -348,6 +348,7 @@ func ruleC12(w *World, r *Report) {
 	}
 
 	k.authenticateRule("C12.")
+	k.routingStoreRule("C12.store")
 	r.MinInstances("C12.", 12)
 }
 
